@@ -47,7 +47,7 @@ TRUSTED = ['labels cross to the model as equivalence classes under Python == / h
 ASSUMPTIONS = ['every series has the length of the span (C09 invariant)',
                'default table judged for bool, all integer widths, float16/32/64, complex, <U, bytes; for object / datetime64 / timedelta64 series the default is not judged (not in the property\'s table), overlap values, given fills (object) and sharing are',
                'old spans of NumPy / pandas type have unique labels (the locators refuse or return masks for duplicates: outside the regime; NumPy duplicates are still compared with the model: KeyError)',
-               'weaker readings enforced by the oracle: with repeated labels in the old span any occurrence\'s value is accepted; a keyword fill of None, a fill value of a foreign type (e.g. str for a bool series), and fill_value for status/iterations of a model are not judged']
+               'weaker readings enforced by the oracle: with repeated labels in the old span any occurrence\'s value is accepted; a keyword fill of None, a fill value whose conversion is a matter of taste (2.9 for an int series, a non-empty string for a bool series; but the number 0 in a str series is judged: the text 0), and fill_value for status/iterations of a model are not judged']
 
 META = {
     "text": "Reflected probe table (Generated.reindexProbes: what the imported reindex puts into a new period, per dtype of a 20-dtype catalogue) with theorems quantifying over it: the model's if/elif branch function equals the code's for bool / every int and uint width / timedelta64 / <U / float64, and the code's defaults equal the property's table (False, 0, NaN, '') for every bool/int/uint/float/complex/<U dtype. Theorems for every object (any variables, dtypes, values), every old/new span (permuted, disjoint, repeated labels; first occurrence = list.index) and every fill_value / keyword fills / strict combination: each new position holds the old value at the first occurrence of its label, else coerce(dtype, keyword fill if given else fill_value) with None -> NaN/0/False/''; models default status to '-' and iterations to -1 unless overridden; names, order, dtypes, strict flag and all other attributes carry over; unknown fill keywords are rejected with KeyError exactly under effective strictness (strict=None -> the object's flag); reindex succeeds on well-formed objects. The model is tied to VectorContainer.reindex / BaseModel.reindex by exact comparison of the full reindexed state (values, dtypes, order, exception class) on all generated span pairs.",
@@ -185,6 +185,12 @@ CONFIGS = [
     {'U8': -1, 'C128': True},
     {'fill_value': 3, 'I16': None, 'F32': None, 'O': None},
     {'OT': None, 'OL': 7, 'OS': 'zz', 'I': 2 ** 53 + 3},
+    # falsy fill values of every plain type, as fill_value and as keywords, against every dtype
+    {'fill_value': False},
+    {'fill_value': 0.0},
+    {'fill_value': ''},
+    {'status': 0, 'iterations': False, 'S': 0.0},
+    {'S': 0, 'S5': False, 'I': False, 'I8': 0.0, 'B': 0, 'F': False, 'F32': 0, 'reindex': 0, 'eval': 0.0, 'values': False, 'U8': False, 'OS': 0},
     {'size': 9.5, 'values': 4, 'eval': True, 'reindex': 'zz', 'NAMES': 0.25, '_Tw': 1.25, 'Tw': 2.5, '__Tw': 7},
 ]
 STRICT_ARGS = [None, None, True, False]
@@ -507,7 +513,20 @@ def expected_fill(name, dtype, kw, is_model):
                (kind == 'b' and isinstance(v, bool)) or (kind == 'U' and isinstance(v, str)) or
                (kind == 'S' and isinstance(v, (bytes, str))))
     if not natural:
-        return None, False
+        # a fill value of another plain type stands for itself in the series' own type: the number 0 in a str series
+        # is '0', False in an int series is 0, 1 in a bool series is True (an integral float counts as its integer);
+        # anything whose conversion is a matter of taste (2.9 into an int series, 'x' into a bool series) is not judged
+        plain = isinstance(v, (bool, int, float)) and not (isinstance(v, float) and v != v)
+        if kind == 'U' and plain:
+            v = str(v)
+        elif kind in 'iu' and plain and float(v).is_integer():
+            v = int(v)
+        elif kind == 'b' and plain and v in (0, 1):
+            v = bool(v)
+        elif kind in 'fc' and isinstance(v, bool):
+            v = float(v)
+        else:
+            return None, False
     try:
         with warnings.catch_warnings():
             warnings.simplefilter('ignore')
